@@ -130,7 +130,9 @@ class ReplacementFrontend(ConstrainedFrontend):
 
     def downsize(self):
         self._actual_frontend.downsize()
-        self._replacement_cache.clear()
+        # drop what was derived, keep the replacements themselves: _replacement() consults only the cache, so clearing
+        # it made the solver forget every replacement (add_replacement(x, 5); downsize(); eval(x + 1) gave any value)
+        self._replacement_cache = dict(self._replacements)
 
     def __getstate__(self):
         return (
